@@ -46,6 +46,26 @@ class ExecutionContext:
             return quotient if (a < 0) == (b < 0) else -quotient
         return a / b
 
+    def __Cast(self, targetType: LinearIR.Type, var):
+        # Vectors and matrices are converted component by component
+        if targetType.IsVector():
+            return [self.__Cast(targetType.ElementType, v) for v in var]
+        elif targetType.IsMatrix():
+            return [self.__Cast(targetType.RowType, row) for row in var]
+
+        assert targetType.IsScalar()
+
+        if isinstance(targetType, LinearIR.IntegerType):
+            if not targetType.Unsigned:
+                return math.floor(var)
+            else:
+                return abs(math.floor(var))
+        else:
+            # Must be float
+            assert isinstance(targetType, LinearIR.FloatType)
+
+            return float(var)
+
     def __CreateInstance(self, varType: LinearIR.Type):
         if varType.IsPrimitive():
             return self.__CreatePrimitiveInstance(varType)
@@ -321,20 +341,7 @@ class ExecutionContext:
                     ref = instruction.Reference
                     var = localScope[instruction.Value.Reference]
 
-                    assert instruction.Type.IsScalar()
-
-                    if isinstance(instruction.Type, LinearIR.IntegerType):
-                        if not instruction.Type.Unsigned:
-                            var = math.floor(var)
-                        else:
-                            var = abs(math.floor(var))
-                    else:
-                        # Must be float
-                        assert isinstance(instruction.Type, LinearIR.FloatType)
-
-                        var = float(var)
-
-                    localScope[ref] = var
+                    localScope[ref] = self.__Cast(instruction.Type, var)
                 case LinearIR.OpCode.CONSTRUCT_PRIMITIVE:
                     ref = instruction.Reference
                     if instruction.Type.Kind == LinearIR.TypeKind.Vector:
